@@ -18,9 +18,12 @@ BC = ('l0', 'l1_arith', 'l1_fun', 'ax_vec_from_refl', 'ax_f64_cloned')
 pdev = Fn(FAM + '{impl ExponentialFamily}::penalized_deviance', ret='r', level='L1', valid='y@.len() == mu@.len()',
           requires=['C06.pdev.coef:: coef@.len() >= 1'],
           ensures=['C06.pdev.valid:: y@.len() == mu@.len()',
-                   'C06.pdev.def:: exists|d: f64| #[trigger] is_family_deviance(*self, y@, mu@, d) && rv(r) == rv(d) + rv(alpha) * r_sqrt(dsum(coef@.subrange(1, coef@.len() as int), coef@.subrange(1, coef@.len() as int), coef@.len() - 1))'])
+                   'C06.pdev.def:: exists|d: f64| #[trigger] is_family_deviance(*self, y@, mu@, d) && rv(r) == rv(d) + rv(alpha) * r_sqrt(dsum(coef@.subrange(1, coef@.len() as int), coef@.subrange(1, coef@.len() as int), coef@.len() - 1))'],
+          rewrites=[('self.deviance(y, mu) + alpha * norm(&coef[1..])',
+                     '({ let d_ = self.deviance(y, mu); let s_ = &coef[1..]; let nr_ = norm(s_); proof { assert(s_@ =~= coef@.subrange(1, coef@.len() as int)); '
+                     'assert(is_family_deviance(*self, y@, mu@, d_)); } d_ + alpha * nr_ })', 'R31: A-normal form, evaluation order kept')])
 
-FIT_SPEC = r'''
+PDEV_SPEC = r'''
 /// d is the family's deviance of (y, mu) (whenever the family's domain condition on mu holds)
 pub open spec fn is_family_deviance(f: ExponentialFamily, y: Seq<f64>, mu: Seq<f64>, d: f64) -> bool {
     dev_domain(f, mu) ==> rv(d) == dev_factor(f) * dev_sum(f, y, mu, y.len() as int)
@@ -29,3 +32,107 @@ pub open spec fn dev_domain(f: ExponentialFamily, mu: Seq<f64>) -> bool {
     (f is Gamma || f is Exponential) ==> forall|i: int| 0 <= i < mu.len() ==> rv(#[trigger] mu[i]) != 0real
 }
 '''
+FIT_SPEC = PDEV_SPEC + r'''
+/// the weights used by fit: the stored ones, or all ones
+pub open spec fn fit_weights(g: GLM, n: int, w: Seq<f64>) -> bool {
+    w.len() == n && match g.weights { Some(v) => w =~= v@, None => forall|i: int| 0 <= i < n ==> rv(#[trigger] w[i]) == 1real }
+}
+pub open spec fn fit_valid(g: GLM, x: Seq<f64>, y: Seq<f64>) -> bool {
+    let n = y.len() as int;
+    (x.len() as int) % n == 0 && design_def(x, n, (x.len() as int) / n)
+    && (g.weights is Some ==> g.weights->Some_0@.len() == n) && (g.offsets is Some ==> g.offsets->Some_0@.len() == n)
+}
+/// the convergence test passed on the pair (loss, previous loss)
+pub open spec fn conv_passed(l: f64, lp: f64, tol: f64) -> bool {
+    !f_is_infinite(lp) && (rv(lp) != 0real ==> r_abs(rv(l) - rv(lp)) / rv(lp) < rv(tol))
+}
+pub open spec fn fit_frame(g0: GLM, g1: GLM) -> bool {
+    g1.family == g0.family && g1.alpha == g0.alpha && g1.tolerance == g0.tolerance && g1.weights == g0.weights && g1.offsets == g0.offsets
+}
+pub open spec fn fit_state(g1: GLM, p: int) -> bool {
+    g1.coef is Some && g1.coef->Some_0@.len() == p && g1.p == Some(p as usize) && g1.information_matrix is Some && g1.information_matrix->Some_0@.len() == p * p
+    && g1.deviance is Some && g1.n is Some
+}
+
+/// means, derivative of the inverse link and variance function at the coefficient vector c (one pass eta -> mu -> dmu, var)
+pub open spec fn glm_at(g: GLM, x: Seq<f64>, n: int, p: int, c: Seq<f64>, mu: Seq<f64>, dmu: Seq<f64>, var: Seq<f64>) -> bool {
+    mu.len() == n && dmu.len() == n && var.len() == n && forall|i: int| 0 <= i < n ==>
+        rv(#[trigger] mu[i]) == fam_inv_link(g.family, psum(x, p, false, c, 1, false, i, 0, p) + off_at(g, i))
+        && rv(dmu[i]) == fam_dmu(g.family, rv(mu[i])) && rv(var[i]) == fam_var(g.family, rv(mu[i]))
+}
+/// ridge penalty: + alpha c_i on the slopes of the (negative) score, + alpha on the slope diagonal of the information; nothing when alpha <= 0
+pub open spec fn penalised(g: GLM, p: int, c0: Seq<f64>, db0: Seq<f64>, dd0: Seq<f64>, db: Seq<f64>, dd: Seq<f64>) -> bool {
+    let pen = if rv(g.alpha) > 0real { rv(g.alpha) } else { 0real };
+    db.len() == p && dd.len() == p * p && db0.len() == p && dd0.len() == p * p
+    && (forall|i: int| 0 <= i < p ==> rv(#[trigger] db[i]) == rv(db0[i]) + (if i >= 1 { pen * rv(c0[i]) } else { 0real }))
+    && (forall|r: int, c: int| 0 <= r < p && 0 <= c < p ==> rv(#[trigger] at2(dd, p, r, c)) == rv(at2(dd0, p, r, c)) + (if r == c && r >= 1 { pen } else { 0real }))
+}
+/// one Fisher-scoring step: c1 = c0 - H^-1 g with g the (penalised) negative score and H the (penalised) information at c0, through the routed solver of C01
+pub open spec fn newton_step_w(g: GLM, x: Seq<f64>, y: Seq<f64>, w: Seq<f64>, n: int, p: int, c0: Seq<f64>, c1: Seq<f64>, mu: Seq<f64>, dmu: Seq<f64>, var: Seq<f64>,
+                               db0: Seq<f64>, dd0: Seq<f64>, db: Seq<f64>, dd: Seq<f64>, step: Seq<f64>) -> bool {
+    is_neg_score(db0, x, p, w, y, mu, dmu, var) && is_information(dd0, x, p, n, w, dmu, var) && penalised(g, p, c0, db0, dd0, db, dd)
+    && solved_by_route(dd, p, db, step) && c1.len() == p && step.len() == p && forall|i: int| 0 <= i < p ==> rv(#[trigger] c1[i]) == rv(c0[i]) - rv(step[i])
+}
+pub open spec fn newton_step(g: GLM, x: Seq<f64>, y: Seq<f64>, w: Seq<f64>, n: int, p: int, c0: Seq<f64>, c1: Seq<f64>, mu: Seq<f64>, dmu: Seq<f64>, var: Seq<f64>) -> bool {
+    exists|db0: Seq<f64>, dd0: Seq<f64>, db: Seq<f64>, dd: Seq<f64>, step: Seq<f64>| #[trigger] newton_step_w(g, x, y, w, n, p, c0, c1, mu, dmu, var, db0, dd0, db, dd, step)
+}
+/// what fit leaves behind: the stored coefficients are one Fisher-scoring step from a vector c0; the stored deviance and information matrix are the
+/// family's deviance and information at the means of c0 (the quantities of the last pass of the loop)
+pub open spec fn fit_result_w(g0: GLM, g1: GLM, x: Seq<f64>, y: Seq<f64>, n: int, p: int, w: Seq<f64>, c0: Seq<f64>, mu: Seq<f64>, dmu: Seq<f64>, var: Seq<f64>) -> bool {
+    fit_weights(g0, n, w) && glm_at(g0, x, n, p, c0, mu, dmu, var) && newton_step(g0, x, y, w, n, p, c0, g1.coef->Some_0@, mu, dmu, var)
+    && is_family_deviance(g0.family, y, mu, g1.deviance->Some_0) && is_information(g1.information_matrix->Some_0@, x, p, n, w, dmu, var)
+}
+pub open spec fn fit_result(g0: GLM, g1: GLM, x: Seq<f64>, y: Seq<f64>) -> bool {
+    let n = y.len() as int; let p = (x.len() as int) / n;
+    exists|w: Seq<f64>, c0: Seq<f64>, mu: Seq<f64>, dmu: Seq<f64>, var: Seq<f64>| #[trigger] fit_result_w(g0, g1, x, y, n, p, w, c0, mu, dmu, var)
+}
+'''
+XN = '(x@.len() as int) / (y@.len() as int)'
+TYPED = [('let mut is_converged;', 'let mut is_converged: bool;'), ('let mut eta;', 'let mut eta: Vec<f64>;'), ('let mut mu;', 'let mut mu: Vector;'), ('let mut dmu;', 'let mut dmu: Vector;'),
+         ('let mut var;', 'let mut var: Vector;'), ('let mut dbeta;', 'let mut dbeta: Vec<f64>;'), ('let mut ddbeta;', 'let mut ddbeta: Vec<f64>;'), ('let mut n_iter = 0;', 'let mut n_iter: usize = 0;')]
+ARITH = 'lemma_div_facts(x@.len() as int, n as int); lemma_mul_div(n as int, p as int); lemma_mul_div(p as int, 1); lemma_mul_div(p as int, p as int); lemma_mul_div(n as int, 1); assert(n * 1 == n); assert(p * 1 == p);'
+FIT_INV = ['n == y@.len() && n * p == x@.len() && p == ' + XN + ' && p >= 1', '0 < n < 0x7fff_ffff && 0 < x@.len() <= 0x7fff_ffff && p * p <= 0x7fff_ffff',
+           'fit_valid(*old(self), x@, y@) || may_reject()', '*self == *old(self)', 'design_def(x@, n as int, p as int)',
+           'self.weights is Some ==> self.weights->Some_0@.len() == n',
+           'fit_weights(*self, n as int, weights@)', 'coef@.len() == p',
+           'C06.fit.offsets_checked:: n_iter > 0 ==> (self.offsets is Some ==> self.offsets->Some_0@.len() == n)',
+           'C06.fit.shapes:: n_iter > 0 ==> mu.v@.len() == n && dmu.v@.len() == n && var.v@.len() == n',
+           'C06.fit.last_pass:: n_iter > 0 ==> glm_at(*self, x@, n as int, p as int, c0_, mu.v@, dmu.v@, var.v@) && newton_step(*self, x@, y@, weights@, n as int, p as int, c0_, coef@, mu.v@, dmu.v@, var.v@)',
+           'C06.fit.converged_flag:: n_iter > 0 && is_converged ==> conv_passed(penalized_deviance, pd_prev_, self.tolerance)']
+fit = Fn(IG + 'fit', ret='r', level='L1', valid='fit_valid(*old(self), x@, y@)',
+         panics={1: 'REJECT: (x@.len() as int) % (y@.len() as int) == 0',
+                 2: 'REJECT: (x@.len() as int) % (y@.len() as int) == 0 && design_def(x@, y@.len() as int, ' + XN + ')',
+                 3: 'REJECT: (old(self).weights is Some ==> old(self).weights->Some_0@.len() == y@.len())',
+                 4: 'REJECT: (old(self).offsets is Some ==> old(self).offsets->Some_0@.len() == y@.len())'},
+         requires=['C06.fit.machine:: 0 < y@.len() < 0x7fff_ffff && 0 < x@.len() <= 0x7fff_ffff && (' + XN + ') * (' + XN + ') <= 0x7fff_ffff'],
+         ensures=['C06.fit.valid:: fit_valid(*old(self), x@, y@)',
+                  'C06.fit.frame:: fit_frame(*old(self), *final(self))',
+                  'C06.fit.state:: fit_state(*final(self), ' + XN + ')',
+                  'C06.fit.result:: fit_result(*old(self), *final(self), x@, y@)',
+                  'C06.fit.ok_means_converged:: r is Ok ==> exists|l: f64, lp: f64| #[trigger] conv_passed(l, lp, old(self).tolerance)'],
+         float_casts=(1,),
+         rewrites=[(a, b, 'R4c: deferred initialisation given the type rustc infers') for a, b in TYPED] + [
+             ('is_matrix(x, n).unwrap()', 'match is_matrix(x, n) { Ok(v_) => v_, Err(_) => ::core::panicking::panic("unwrap") }', 'R2b'),
+             (r'\{\s*::std::io::_print\(format_args!\("\{0:\?\}\\n",\s*coef\)\);\s*\};', '', 'R39: a print statement has no effect on program values (dropped)', 're'),
+             ('eta = matmul(x, &coef, n, p, false, false);', 'eta = matmul(x, &coef, n, p, false, false); let ghost eta0_ = eta@; proof { c0_ = coef@; }', 'ghost copies for the proof'),
+             ('var = self.family.variance(&mu);', 'var = self.family.variance(&mu);\n proof { assert forall|i: int| 0 <= i < n implies rv(#[trigger] mu.v@[i]) == fam_inv_link(self.family, psum(x@, p as int, false, c0_, 1, false, i, 0, p as int) + off_at(*self, i)) by '
+              '{ lemma_idx(i, 0, n as int, 1); assert(rv(at2(eta0_, 1, i, 0)) == psum(x@, p as int, false, c0_, 1, false, i, 0, p as int)); } assert(glm_at(*self, x@, n as int, p as int, c0_, mu.v@, dmu.v@, var.v@)); } //@[C06.fit.means]\n', 'proof hint'),
+             ('ddbeta = self.compute_ddbeta(x, &dmu, &var, &weights);', 'ddbeta = self.compute_ddbeta(x, &dmu, &var, &weights); let ghost db0_ = dbeta@; let ghost dd0_ = ddbeta@;', 'ghost copies for the proof'),
+             (r'coef = (\w+)\(&coef, &solve\(&ddbeta, &dbeta\)\);', r'let step_ = solve(&ddbeta, &dbeta); coef = \1(&coef, &step_);\n proof { assert(penalised(*self, p as int, c0_, db0_, dd0_, dbeta@, ddbeta@)); '
+              'assert(newton_step_w(*self, x@, y@, weights@, n as int, p as int, c0_, coef@, mu.v@, dmu.v@, var.v@, db0_, dd0_, dbeta@, ddbeta@, step_@)); } //@[C06.fit.newton_step]\n', 'R31: the Newton step bound to a name', 're'),
+             ('let penalized_deviance_previous = penalized_deviance;', 'let penalized_deviance_previous = penalized_deviance; proof { pd_prev_ = penalized_deviance_previous; }', 'ghost copy for the proof')],
+         loops={1: {'invariant': FIT_INV, 'invariant_except_break': ['n_iter == 0 || n_iter < max_iter'], 'ensures': ['n_iter > 0 && (n_iter >= max_iter || is_converged)'],
+                   'decreases': 'max_iter + 1 - n_iter', 'body_start': ARITH}},
+         hints=[('let mut ddbeta: Vec<f64>;', 'after', 'let ghost mut pd_prev_: f64 = penalized_deviance; let ghost mut c0_: Seq<f64> = coef@; proof { ' + ARITH + ' assert(fit_weights(*self, n as int, weights@)); }'),
+                ('if !is_design(x, n)', 'before', 'proof { lemma_div_facts(x@.len() as int, n as int); assert(p >= 1) by { if p == 0 { assert(0 * n == 0); } } }'),
+                ('self.coef = Some(coef);', 'before', 'let ghost c1_ = coef@; proof { ' + ARITH + ' }'),
+                ('if n_iter >= max_iter && !is_converged {', 'before', 'proof { assert(fit_result_w(*old(self), *self, x@, y@, n as int, p as int, weights@, c0_, mu.v@, dmu.v@, var.v@)); } //@[C06.fit.stored]')])
+UNITS = [
+    Unit('C06_pdev', 'C06', [pdev], use=[c06.deviance, c04.norm], types=TYPES, type_spec=core.TYPE_SPEC, spec=c06.SPEC + c06.DEV_SPEC + PDEV_SPEC, preludes=PRE, broadcast=BC, level='L1',
+         notes='penalized_deviance = family deviance + alpha * norm of the slope coefficients (intercept excluded)'),
+    Unit('C06_fit', 'C06', [fit], use=[c15.is_matrix, c15b.is_design, c08.mean, c05.matmul, c04.KERNELS['vadd'], c04.KERNELS['vsub'], c06.inv_link, c06.d_inv_link, c06.variance, c06.dbeta, c06.ddbeta,
+                                       c06.pen_d, c06.pen_dd, s1.solve, pdev, c06.has_converged, c06.deviance, c04.vsum_fn] + core.core_stubs(),
+         types=TYPES, type_spec=core.TYPE_SPEC, spec=s1.SPEC + c06.SPEC + c06.FAM_SPEC + c06.SCORE_SPEC + c06.DEV_SPEC + c06.PRED_SPEC + c08.SPEC + FIT_SPEC, preludes=PRE, broadcast=BC, level='L1', rlimit=200,
+         notes='GLM::fit: inputs validated or rejected; the model state written at the end is consistent (coef of length p, p x p information matrix, deviance, n, p; family / penalty / tolerance / weights / offsets untouched); '
+               'Ok is returned only if the convergence test passed on the last two penalised deviances'),
+]
